@@ -340,3 +340,105 @@ harnesses! {
     #[kani::unwind(10)] c13_block_raw3 => block_raw3;
     #[kani::unwind(10)] c13_block_raw4 => block_raw4;
 }
+
+// ---------------------------------------------------------------------------------------
+// Type expressions: `Type::new` (parser/src/types/mod.rs), called by `parse_type` on the text
+// the grammar rule `type_` matched.
+pub mod types {
+    use async_graphql_parser::types::{BaseType, Type};
+
+    use crate::vsrc::Src;
+
+    /// Shapes from the outside in: 1 = non-null marker, 2 = list; name = two characters, the
+    /// first solver-chosen, the second the concrete 'Z' (keeps the suffix tests concrete).
+    pub const SHAPES: [(&str, [u8; 4]); 7] = [
+        ("nZ", [0, 0, 0, 0]),
+        ("nZ!", [1, 0, 0, 0]),
+        ("[nZ]", [2, 0, 0, 0]),
+        ("[nZ]!", [1, 2, 0, 0]),
+        ("[nZ!]", [2, 1, 0, 0]),
+        ("[nZ!]!", [1, 2, 1, 0]),
+        ("[[nZ]!]", [2, 1, 2, 0]),
+    ];
+
+    /// Walks the parsed type along the expected wrappers; true iff it has exactly that shape
+    /// and the expected name.
+    fn matches(t: &Type, w: &[u8; 4], name: u8) -> bool {
+        let mut cur = t;
+        let mut i = 0;
+        let mut steps = 0;
+        while steps < 4 {
+            let non_null = i < 4 && w[i] == 1;
+            if cur.nullable == non_null {
+                return false;
+            }
+            if non_null {
+                i += 1;
+            }
+            let is_list = i < 4 && w[i] == 2;
+            match &cur.base {
+                BaseType::List(inner) => {
+                    if !is_list {
+                        return false;
+                    }
+                    i += 1;
+                    cur = inner;
+                }
+                BaseType::Named(n) => {
+                    let b = n.as_str().as_bytes();
+                    return !is_list && b.len() == 2 && b[0] == name && b[1] == b'Z';
+                }
+            }
+            steps += 1;
+        }
+        false
+    }
+
+    fn type_new<S: Src, const I: usize>(s: &mut S) {
+        let name = s.u8();
+        s.assume((name >= b'A' && name <= b'Z') || (name >= b'a' && name <= b'z') || name == b'_');
+        let (text, w) = SHAPES[I];
+        let tb = text.as_bytes();
+        let mut buf = [0u8; 8];
+        macro_rules! put {
+            ($i:expr) => {
+                if $i < tb.len() {
+                    buf[$i] = if tb[$i] == b'n' { name } else { tb[$i] };
+                }
+            };
+        }
+        put!(0);
+        put!(1);
+        put!(2);
+        put!(3);
+        put!(4);
+        put!(5);
+        put!(6);
+        put!(7);
+        let st: &str = unsafe { std::str::from_utf8_unchecked(&buf[..tb.len()]) };
+        let t = std::mem::ManuallyDrop::new(Type::new(st));
+        cover!(name == b'_', "underscore name");
+        cover!(name == b'q', "letter name");
+        match &*t {
+            Some(t) => assert!(matches(t, &w, name), "Type::new built a different type than the expression denotes"),
+            None => assert!(false, "a well-formed type expression was rejected"),
+        }
+    }
+    pub fn type_new0<S: Src>(s: &mut S) { type_new::<S, 0>(s) }
+    pub fn type_new1<S: Src>(s: &mut S) { type_new::<S, 1>(s) }
+    pub fn type_new2<S: Src>(s: &mut S) { type_new::<S, 2>(s) }
+    pub fn type_new3<S: Src>(s: &mut S) { type_new::<S, 3>(s) }
+    pub fn type_new4<S: Src>(s: &mut S) { type_new::<S, 4>(s) }
+    pub fn type_new5<S: Src>(s: &mut S) { type_new::<S, 5>(s) }
+    pub fn type_new6<S: Src>(s: &mut S) { type_new::<S, 6>(s) }
+
+    harnesses! {
+        #[kani::unwind(5)] #[kani::stub(core::str::slice_error_fail, crate::stubs::slice_error_fail_stub)] c13_type_new0 => type_new0;
+        #[kani::unwind(5)] #[kani::stub(core::str::slice_error_fail, crate::stubs::slice_error_fail_stub)] c13_type_new1 => type_new1;
+        #[kani::unwind(5)] #[kani::stub(core::str::slice_error_fail, crate::stubs::slice_error_fail_stub)] c13_type_new2 => type_new2;
+        #[kani::unwind(5)] #[kani::stub(core::str::slice_error_fail, crate::stubs::slice_error_fail_stub)] c13_type_new3 => type_new3;
+        #[kani::unwind(5)] #[kani::stub(core::str::slice_error_fail, crate::stubs::slice_error_fail_stub)] c13_type_new4 => type_new4;
+        #[kani::unwind(5)] #[kani::stub(core::str::slice_error_fail, crate::stubs::slice_error_fail_stub)] c13_type_new5 => type_new5;
+        #[kani::unwind(5)] #[kani::stub(core::str::slice_error_fail, crate::stubs::slice_error_fail_stub)] c13_type_new6 => type_new6;
+    }
+}
